@@ -262,7 +262,7 @@ func (e *c17Env) run(b *verifx.C17Beh, n int64, big bool) ([]*verifx.C17Plan, []
 			if !begin(i) {
 				return plans, res, false
 			}
-		case "wh", "w", "fl":
+		case "wh", "w", "fl", "hj":
 			select {
 			case sess[i].step <- struct{}{}:
 			case <-abort:
@@ -330,6 +330,11 @@ func TestVerifC17(t *testing.T) {
 				panic(http.ErrAbortHandler)
 			}
 		}()
+		if v, ok := env.sessions.Load(r.Header.Get("X-C17-Session")); ok && v.(*c17Session).plan.HasOp("hj") {
+			// a writer that HAS a Hijack method and refuses (as fabio's own responseWriter over a connection that
+			// cannot be taken over)
+			w = verifx.C17NoHijack{ResponseWriter: w}
+		}
 		if strings.HasPrefix(r.URL.Path, "/ref/") {
 			env.inner(w, r) // reference: the same scripted handler WITHOUT the gzip wrapper
 			return
